@@ -15,8 +15,8 @@ LEAN_PROPS = 'PlumpyModel.Props.C03'
 ASSUMPTIONS = [
     'exactly one injected fault per run: (hook point, occurrence index, raise before / after calling super())',
     'scenarios: plain run (outputs, Continue, Wait/resume), run with pause/play at every position, run with kill at every '
-    'position, run with a call_soon callback, requests issued by listeners from inside notifications; asyncio driven one '
-    'callback at a time',
+    'position, run with a call_soon callback, fail() requested at every position, requests issued by listeners from inside '
+    'notifications (also while a pause / play hook is failing); asyncio driven one callback at a time',
     'hooks of the EXCEPTED state itself (on_except, on_excepted) are not fault points: they only run after another failure',
     'the n-th out() call of the harness process is mapped to (step function, await points before it) by the harness (OUT_AT)',
 ]
@@ -247,10 +247,15 @@ def run_case(case):
     def fstat(a):
         return ('P' if not a.done() else 'C' if a.cancelled() else 'E:' + excname(a.exception()) if a.exception() is not None else 'D')
 
+    def peek_exception(f):
+        # what `f.exception()` would return, WITHOUT marking the exception as retrieved (whether anybody retrieved the failure of
+        # the process is itself observed at the end of the run: `unretrieved`)
+        return f._exception if hasattr(f, '_exception') else f.exception()
+
     def observe(ret):
         f = p.future()
         fs = ('pending' if not f.done() else 'cancelled' if f.cancelled() else
-              'exc:' + excname(f.exception()) if f.exception() is not None else 'result')
+              'exc:' + excname(peek_exception(f)) if peek_exception(f) is not None else 'result')
         ts = 'pending' if not task.done() else 'crashed' if (task.cancelled() or task.exception() is not None) else 'done'
         st = p.state
         if st == ps.ProcessState.FINISHED:
